@@ -31,7 +31,7 @@ class Measure(Part):
         from . import c14 as C14   # registers the builders of the extra leaves
 
         # overflow="ignore" is an explicit request to exceed the width (not generated for texts either in this mode)
-        extra = st.one_of(C14.pretty_leaf().filter(lambda n: n["overflow"] != "ignore"), C14.syntax_leaf(), C14.other_leaves("spinner"))
+        extra = st.one_of(C14.pretty_leaf(allow_ignore=False), C14.syntax_leaf(), C14.other_leaves("spinner"))
         return st.builds(lambda t, a: {"tree": t, "A": a}, st.one_of(GT.node(0, "free"), GT.node(0, "free"), GT.node(0, "free", extra=extra), extra), a)
 
     def check(self, spec, ctx):
